@@ -18,6 +18,7 @@ c_OnlySD == TRUE
 c_PolyDeg == 1
 c_DiffK == {1}
 c_MaxDeg == 2
+c_EvExp == 0
 c_Invalid == FALSE
 c_MaxHist == 0
 c_RunActs == {"eval", "update"}
@@ -29,4 +30,5 @@ c_EmitOps == {0}
 c_EmitMod == 6
 c_EmitRes == 0
 c_EmitSmall == 3
+c_EmitFilter == "all"
 ====
